@@ -330,4 +330,9 @@ PROPS['C17']['explanation'] = PROPS['C17']['explanation'].replace(', and that th
     'written in Coq and read with the standard denotation of regular expressions, denotes exactly name_ok, for every byte string (regex -> state machine by running the machine over alnum runs and separators; '
     'state machine -> regex by an invariant per machine state). What remains trusted there: that the `regex` crate implements that standard denotation (OciName: the compiled regex vs name_ok on every string of length <= 6 over a 0 . _ - / A).')
 
+# a panic of the parser on a template is neither acceptance nor rejection: a violation of the grammar properties too
+for _k in ('C04', 'C11'):
+    if 'Panic' not in PROPS[_k]['primary']:
+        PROPS[_k]['primary'] = PROPS[_k]['primary'] + ['Panic']
+
 NOT_APPLICABLE = {}
